@@ -47,13 +47,20 @@ ASSUMPTIONS = ["theorems are over the reals for the Lean translation of Spectrum
                "oracle on real SpectrumResult objects only (all result kinds x random operation sequences)",
                "'unknown attribute -> AttributeError' is demanded for plain unknown names only (names ending in _dev/_error currently fall "
                "through to None; the property text does not list them, so they are not demanded)"]
-RULE = ("result = (kind in full/banded/equal-K via Lmin=N/equal-K via band/single-bin/edge(zero, constant, tiny record)/constructed-from-bins, "
-        "auto or cross, 2xN or Nx2 layout, scheduler, detrend order, window, record kind); per result: every identity of (a) on every bin, "
+RULE = ("result = (kind in full/banded/equal-K via Lmin=N/equal-K via band/single-bin/edge(zero, constant, tiny record)/constructed-from-bins/"
+        "dead (full, banded, single-bin or constructed result whose first, second or both channels are all-zero or constant, so that the documented "
+        "formulas give cf = 0, cf_db = -inf, *_error = inf, *_dev = NaN), "
+        "auto or cross, 2xN or Nx2 layout, scheduler, detrend order, window, record kind); per result: every identity of (a) on every bin "
+        "(non-finite values of the formulas included), "
         "the None table over every dynamic name + G, get_measurement queries (each grid point, interior, below, above, scalar, 1-D, 2-D, empty, "
-        "non-finite), to_dataframe columns/values, and a random sequence over {read, copy, deepcopy, pickle, to_dataframe, get_measurement, "
-        "len, repr} compared bit-for-bit with an independently built twin; distinct by (kind, mode, check, attribute / query class / op tuple); "
+        "non-finite; at grid points and in the clamps the tabulated value is demanded also where it is -inf/inf/NaN; the queried names always include "
+        "one whose table has non-finite entries when the result has any), to_dataframe columns/values, and a random sequence over {read, copy, "
+        "deepcopy, pickle, to_dataframe, get_measurement (checked values), get_measurement of ANY name incl. aliases / data fields / non-finite "
+        "tables, get_rms, len, repr, dir} compared bit-for-bit (NaN positions included) with an independently built twin that was never queried: "
+        "after each query the queried name and its aliases, at the end every attribute of the final object, of the original, and of the "
+        "fully queried twin against its own pre-query snapshot; distinct by (kind, mode, check, attribute / query class / op tuple); "
         "non-trivial = the quantity compared is non-zero on at least one bin (identities), nf >= 2 (interpolation), a sequence with >= 1 "
-        "copy/pickle step")
+        "copy/pickle step, a query on a table with a non-finite entry")
 
 U = 2.0 ** -53
 LIBERR = (Exception, SystemExit)     # some schedulers call sys.exit() on an empty plan: an error outcome like any other here
@@ -73,8 +80,14 @@ AUTO_NONE = {"csd", "Gyx", "Hxy", "Hyx", "coh", "ccoh", "cs", "tf", "cf", "cf_db
 KNOWN = set(FALLBACK_DYN) | {"G"}
 DATA_FIELDS = ["f", "r", "b", "m", "L", "K", "navg", "D", "O", "XX", "YY", "XY", "S12", "S2", "M2", "compute_t", "i", "nf"]
 UNKNOWN_NAMES = ["nonexistent", "psd2", "Gzz", "coherence", "PSD", "cf_", "asd ", "tf2"]
-KINDS = ["full", "full", "band", "equalK-Lmin", "equalK-band", "single", "single", "edge", "fake"]
-OPS = ["read", "read", "read", "copy", "deepcopy", "pickle", "df", "meas", "len", "repr", "dir"]
+KINDS = ["full", "full", "band", "equalK-Lmin", "equalK-band", "single", "single", "edge", "fake", "dead", "dead"]
+# `query` = get_measurement(random query form, ANY attribute name: derived, alias, pass-through data field, None-valued, non-finite table);
+# `rms` = get_rms(None / random band); both are followed by a bit-for-bit comparison with the never-queried twin.
+# Forced sequences may pin the argument: "query:<name>", "read:<name>", "pickle:<protocol>".
+OPS = ["read", "read", "read", "copy", "deepcopy", "pickle", "df", "meas", "len", "repr", "dir", "query", "query", "query", "rms"]
+# aliases that may share one array in the lazy cache: a write through one name shows up under the others
+ALIASES = [("Gxx", "psd", "G", "Gyy", "Gxy"), ("Gxy", "csd"), ("Hxy", "tf"), ("Gxx_dev", "Gyy_dev"), ("Gxx_error", "Gyy_error"),
+           ("XX", "XX_mean", "YY_mean"), ("YY", "YY_mean"), ("M2", "XY_M2")]
 
 
 # ---------------------------------------------------------------- small helpers
@@ -211,24 +224,37 @@ def build(recipe: Dict[str, Any]):
     raise ValueError(fn)
 
 
-def gen_data(rng: np.random.Generator, N: int, cross: bool, rk: str) -> np.ndarray:
+def gen_data(rng: np.random.Generator, N: int, cross: bool, rk: str, dead: Optional[Dict[str, str]] = None) -> np.ndarray:
     x1 = _an.record(rng, N, rk)
     if not cross:
-        return x1
+        return _an.record(rng, N, dead["how"]) if dead else x1
     if rk in ("zero", "const"):
         x2 = _an.record(rng, N, str(rng.choice([rk, "noise"])))
     else:
         x2 = float(rng.uniform(0.2, 3.0)) * np.roll(x1, int(rng.integers(0, 6))) + float(rng.uniform(0.05, 1.0)) * _an.record(rng, N, "noise")
+    if dead:                                              # a dead (all-zero) or stuck (constant) channel: first, second or both
+        if dead["which"] in ("first", "both"):
+            x1 = _an.record(rng, N, dead["how"])
+        if dead["which"] in ("second", "both"):
+            x2 = _an.record(rng, N, dead["how"])
     d = np.stack([x1, x2])
     return d.T.copy() if rng.random() < 0.4 else d
 
 
-def gen_recipe(rng: np.random.Generator, kind: str, cross: Optional[bool] = None) -> Dict[str, Any]:
+def gen_recipe(rng: np.random.Generator, kind: str, cross: Optional[bool] = None, dead: Optional[Dict[str, str]] = None) -> Dict[str, Any]:
+    if kind == "dead":
+        # results that legitimately carry zeros / non-finite IEEE values of the documented formulas (cf = 0, cf_db = -inf, errors inf, devs NaN)
+        sub = str(rng.choice(["full", "full", "band", "single", "single", "fake", "equalK-Lmin"]))
+        spec = {"which": str(rng.choice(["first", "second", "second", "both"])), "how": str(rng.choice(["zero", "zero", "const"]))}
+        rec = gen_recipe(rng, sub, bool(rng.random() < 0.85) if cross is None else cross, dead=spec)
+        rec["kind"] = "dead-" + sub
+        rec["dead"] = spec
+        return rec
     cross = bool(rng.integers(0, 2)) if cross is None else bool(cross)
     fs = float(rng.choice([1.0, 2.0, 1000.0, float(rng.uniform(0.1, 1e4))]))
     if kind == "fake":
         n = int(rng.choice([1, 2, 3, 7, 12]))
-        bins = [_an.gen_bin(rng, cross, edge=bool(rng.random() < 0.35)) for _ in range(n)]
+        bins = [_an.gen_bin(rng, cross, edge=bool(dead is not None and rng.random() < 0.8) or bool(rng.random() < 0.35)) for _ in range(n)]
         return {"fn": "fake", "kind": kind, "iscsd": cross, "fs": fs, "bins": bins}
     N = int(rng.choice([int(rng.integers(16, 64)), int(rng.integers(64, 400)), int(rng.integers(400, 1500))]))
     rk = str(rng.choice(["noise", "offset", "drift", "red", "tone"]))
@@ -237,7 +263,7 @@ def gen_recipe(rng: np.random.Generator, kind: str, cross: Optional[bool] = None
         N = int(rng.choice([4, 5, 8, 16, int(rng.integers(17, 200))]))
     if kind == "equalK-Lmin":
         N = min(N, int(rng.integers(16, 260)))
-    data = gen_data(rng, N, cross, rk)
+    data = gen_data(rng, N, cross, rk, dead)
     o = _an.options(rng, N)
     rec: Dict[str, Any] = {"fn": "compute_spectrum", "kind": kind, "iscsd": cross, "fs": fs, "data": data, "kw": o, "record": rk, "N": N}
     if kind == "equalK-Lmin":
@@ -273,7 +299,7 @@ def gen_recipe(rng: np.random.Generator, kind: str, cross: Optional[bool] = None
 
 
 def recipe_summary(rec: Dict[str, Any]) -> Dict[str, Any]:
-    s = {k: rec[k] for k in ("fn", "kind", "iscsd", "fs", "record", "N", "freq", "sb") if k in rec}
+    s = {k: rec[k] for k in ("fn", "kind", "iscsd", "fs", "record", "N", "freq", "sb", "dead") if k in rec}
     if "kw" in rec:
         s["kw"] = rec["kw"]
     if "bins" in rec:
@@ -438,14 +464,43 @@ def queries(rng: np.random.Generator, f: np.ndarray) -> List[float]:
     return xs
 
 
+def _same_float(a: float, b: float) -> bool:
+    return (math.isnan(a) and math.isnan(b)) or a == b
+
+
+def _try_read(res, name: str) -> Any:
+    try:
+        return read(res, name)
+    except Exception:  # noqa
+        return None
+
+
 def check_value(P: C.Part, case, tag: str, which: str, f, yr, yi, x: float, out: Any, mode: str, how: str, kind: str) -> None:
     """out (scalar) vs the separately interpolated real and imaginary tables"""
     P.cases += 1
     er, tr, cls = ref_interp(f, yr, x)
     ei, ti = (0.0, 0.0) if yi is None else ref_interp(f, yi, x)[:2]
     P.hit(f"meas.{cls}")
-    if er is None or ei is None or not (math.isfinite(er) and math.isfinite(ei)):
-        P.hit("meas.skipped-nonfinite-table")
+    if er is None or ei is None:
+        P.hit("meas.skipped-nonfinite-table")             # between two knots of which one is non-finite: "linear" decides nothing
+        return
+    if not (math.isfinite(er) and math.isfinite(ei)):
+        # grid point / clamp: the tabulated value itself, also where the documented formula gives -inf / inf / NaN.
+        # (a complex table with a non-finite IMAGINARY part is left out: re + 1j*im is not component-wise there; no computed result has one)
+        if not math.isfinite(ei):
+            P.hit("meas.skipped-nonfinite-table")
+            return
+        P.hit("meas.nonfinite-table-value")
+        try:
+            z = complex(out)
+        except Exception:  # noqa
+            add_violation(P, f"{tag}: get_measurement({x!r}, {which!r}) returned {desc(out)}", {"check": "measurement", "class": cls, "problem": "type", "mode": mode}, case)
+            return
+        P.nontrivial.add((kind, mode, "meas-nonfinite", which, cls, how))
+        if not (_same_float(z.real, er) and z.imag == ei):
+            add_violation(P, f"{tag}: get_measurement({x!r}, {which!r}) [{how}] = {z!r} but the {cls} value of the table is {complex(er, ei)!r} "
+                             f"(the tabulated value of the documented formula; it must be returned as it is); grid [{float(f[0])!r} .. {float(f[-1])!r}], nf={len(f)}",
+                          {"check": "measurement", "class": cls, "mode": mode, "complex": yi is not None, "nonfinite": True}, case, {"which": which, "x": x, "how": how})
         return
     try:
         z = complex(out)
@@ -461,7 +516,16 @@ def check_value(P: C.Part, case, tag: str, which: str, f, yr, yi, x: float, out:
                       {"check": "measurement", "class": cls, "mode": mode, "complex": yi is not None}, case, {"which": which, "x": x, "how": how})
 
 
-def check_measurement(P: C.Part, res, case: Dict[str, Any], tag: str, rng: np.random.Generator, ref: Optional[Dict[str, Any]] = None, light: bool = False) -> None:
+def numeric_table(y: Any, nf: int) -> bool:
+    return isinstance(y, np.ndarray) and y.shape == (nf,) and y.dtype.kind in "fciu"
+
+
+def has_nonfinite(y: np.ndarray) -> bool:
+    return bool(y.dtype.kind in "fc" and not np.all(np.isfinite(y)))
+
+
+def check_measurement(P: C.Part, res, case: Dict[str, Any], tag: str, rng: np.random.Generator, ref: Optional[Dict[str, Any]] = None, light: bool = False,
+                      names: Optional[List[str]] = None, pick: Optional[List[str]] = None) -> None:
     rec = case["recipe"]
     kind, mode = rec["kind"], ("cross" if res.iscsd else "auto")
     f = np.asarray(read(res, "f"), dtype=float)
@@ -469,14 +533,28 @@ def check_measurement(P: C.Part, res, case: Dict[str, Any], tag: str, rng: np.ra
         P.hit("meas.grid-not-increasing")
         return
     cand = (["Gxy", "Hxy", "ccoh", "cs", "Gyx", "coh", "Gxx", "Gyy", "cf_deg", "GyyRx", "Gxy_dev"] if res.iscsd else ["asd", "psd", "ps", "Gxx", "Gxx_dev", "ENBW", "XX"])
-    pick = [str(n) for n in rng.choice(cand, size=2 if light else 4, replace=False)]
+    if pick is None:
+        pick = [str(n) for n in rng.choice(cand, size=2 if light else 4, replace=False)]
+        if names:
+            # every other attribute name is a legal `which` too: one more of them, and - when the result has attributes whose table contains
+            # -inf/inf/NaN (dead channel, zero coherence, ...) - one of those
+            others = [n for n in names if n not in pick and n != "compute_t"]
+            tabs = {n: (ref[n] if ref is not None and n in ref else _try_read(res, n)) for n in others}
+            others = [n for n in others if numeric_table(tabs[n], len(f))]
+            nonfin = [n for n in others if has_nonfinite(tabs[n])]
+            if others:
+                pick.append(str(rng.choice(others)))
+            if nonfin:
+                pick.append(str(rng.choice(nonfin)))
+                P.hit("meas.pick-nonfinite-table")
     for which in pick:
         y = ref[which] if ref is not None and isinstance(ref.get(which), np.ndarray) else read(res, which)
-        if not isinstance(y, np.ndarray) or y.shape != f.shape:
+        if not numeric_table(y, len(f)):
             continue
         cplx = np.iscomplexobj(y)
-        yr = np.ascontiguousarray(np.real(y), dtype=float)
-        yi = np.ascontiguousarray(np.imag(y), dtype=float) if cplx else None
+        # private copies: the table must not alias the array held in the result's cache (an in-place edit by the query would go unseen)
+        yr = np.array(np.real(y), dtype=float, copy=True)
+        yi = np.array(np.imag(y), dtype=float, copy=True) if cplx else None
         xs = queries(rng, f)
         if light:
             xs = [xs[int(i)] for i in rng.integers(0, len(xs), size=6)]
@@ -644,7 +722,64 @@ def compare_snap(P: C.Part, case, tag: str, got: Dict[str, Any], ref: Dict[str, 
     return True
 
 
-def check_sequence(P: C.Part, res, twin, case: Dict[str, Any], tag: str, rng: np.random.Generator, names: List[str]) -> Any:
+def query_forms(rng: np.random.Generator, f: np.ndarray) -> Tuple[str, Any]:
+    """one query argument for get_measurement: the whole grid, interior points, outside points, a mixture, or a scalar"""
+    nf = len(f)
+    lo, hi = float(f[0]), float(f[-1])
+    mid = 0.5 * (f[:-1] + f[1:]) if nf > 1 else np.array([lo * 1.01 + 1e-3])
+    outside = np.array([0.5 * lo, lo - 1.0, 2.0 * hi + 1.0])
+    form = str(rng.choice(["grid", "grid", "mid", "outside", "mixed", "scalar-grid", "scalar-mid", "scalar-outside", "list"]))
+    if form == "grid":
+        return form, np.array(f, dtype=float, copy=True)
+    if form == "mid":
+        return form, np.array(mid, dtype=float)
+    if form == "outside":
+        return form, outside
+    if form == "mixed":
+        return form, rng.permutation(np.concatenate([f, mid, outside]))
+    if form == "scalar-grid":
+        return form, float(f[int(rng.integers(0, nf))])
+    if form == "scalar-mid":
+        return form, float(mid[int(rng.integers(0, len(mid)))])
+    if form == "scalar-outside":
+        return form, float(outside[int(rng.integers(0, 3))])
+    return form, [float(v) for v in f[: min(nf, 5)]]
+
+
+def check_untouched(P: C.Part, cur, case, tag: str, ref: Dict[str, Any], group: List[str], done: List[str], what: str) -> bool:
+    """attributes `group` of `cur` still equal, bit for bit (NaN positions included), what the never-queried twin reported"""
+    mode = "cross" if case["recipe"]["iscsd"] else "auto"
+    for n in group:
+        if n == "compute_t" or n not in ref:
+            continue
+        P.cases += 1
+        try:
+            v = read(cur, n)
+        except AttributeError:
+            v = "<AttributeError>"
+        b = ref[n]
+        if not snap_same(v, b):
+            sv, sb = (v if isinstance(v, str) else desc(v)), (b if isinstance(b, str) else desc(b))
+            detail = ""
+            if isinstance(v, np.ndarray) and isinstance(b, np.ndarray) and v.shape == b.shape and v.dtype == b.dtype and v.dtype != object and v.size:
+                j = int(np.nonzero(~((v == b) | ((v != v) & (b != b))))[0][0]) if np.any(~((v == b) | ((v != v) & (b != b)))) else 0
+                detail = f"; e.g. bin {j}: {v[j]!r} vs {b[j]!r}"
+            add_violation(P, f"{tag}: after [{' '.join(done)}] attribute {n} is {sv}, the never-queried twin has {sb}{detail} "
+                             f"(a query must not change the result)", {"check": "history", "mode": mode, "what": what, "alias": n != group[0]}, case,
+                          {"ops": list(done), "name": n})
+            return False
+    return True
+
+
+def alias_group(name: str) -> List[str]:
+    g = [name]
+    for grp in ALIASES:
+        if name in grp:
+            g += [n for n in grp if n not in g]
+    return g
+
+
+def check_sequence(P: C.Part, res, twin, case: Dict[str, Any], tag: str, rng: np.random.Generator, names: List[str], box: Optional[Dict[str, Any]] = None) -> Any:
     """random operations on `res` (fresh cache); the final object, and the original, must agree bit-for-bit with the untouched twin"""
     rec = case["recipe"]
     kind, mode = rec["kind"], ("cross" if res.iscsd else "auto")
@@ -656,16 +791,72 @@ def check_sequence(P: C.Part, res, twin, case: Dict[str, Any], tag: str, rng: np
         pass
     ref = snapshot(twin, [str(n) for n in rng.permutation(allnames)])
     ref_sorted = {n: ref[n] for n in allnames}
+    if box is not None:
+        box["ref"] = ref_sorted
+    fgrid = ref_sorted.get("f")
+    nfg = len(fgrid) if isinstance(fgrid, np.ndarray) else 0
+    grid_ok = nfg >= 1 and bool(np.all(np.isfinite(fgrid))) and (nfg == 1 or bool(np.all(np.diff(fgrid) > 0)))
+    nonfin_names = [n for n in allnames if numeric_table(ref_sorted[n], nfg) and has_nonfinite(ref_sorted[n])] if grid_ok else []
+    if nonfin_names:
+        P.hit("seq.result-with-nonfinite-tables")
     ops = list(case.get("forced_ops") or [str(o) for o in rng.choice(OPS, size=int(rng.integers(3, 13)))])
     cur = res
     done: List[str] = []
     for op in ops:
+        op, _, arg = str(op).partition(":")
         P.cases += 1
         P.hit(f"seq.{op}")
         try:
             with quiet():
-                if op == "read":
-                    n = str(rng.choice(allnames))
+                if op == "query":
+                    if not grid_ok:
+                        P.hit("seq.query.no-grid")
+                        continue
+                    # ANY attribute name: derived, alias, data field, None-valued, ragged; half of the time one whose table holds -inf/inf/NaN
+                    n = arg or (str(rng.choice(nonfin_names)) if nonfin_names and rng.random() < 0.5 else str(rng.choice(allnames)))
+                    form, q = query_forms(rng, fgrid)
+                    done.append(f"query:{n}:{form}")
+                    y = ref_sorted.get(n)
+                    numeric = numeric_table(y, nfg) and n != "compute_t"
+                    try:
+                        out = cur.get_measurement(q, n)
+                    except Exception as ex:  # noqa
+                        if numeric and y.dtype.kind in "fc":
+                            add_violation(P, f"{tag}: after [{' '.join(done)}] get_measurement({form} query, {n!r}) raised {ex!r}",
+                                          {"check": "measurement", "problem": "raises", "mode": mode}, case, {"ops": list(done)})
+                            return cur
+                        P.hit("seq.query.raised-on-non-table")   # None-valued / ragged / scalar attribute: whether it raises is not this property
+                        out = None
+                    if numeric and out is not None:
+                        if has_nonfinite(y):
+                            P.nontrivial.add((kind, mode, "query-nonfinite", n, form))
+                        qa = np.asarray(q, dtype=float)
+                        oa = np.asarray(out)
+                        P.cases += 1
+                        if (np.isscalar(q) and not np.isscalar(out)) or oa.shape != qa.shape:
+                            add_violation(P, f"{tag}: after [{' '.join(done)}] get_measurement({form} query of shape {qa.shape}, {n!r}) returned {desc(out)}",
+                                          {"check": "measurement", "problem": "shape", "mode": mode, "how": form}, case, {"ops": list(done)})
+                        else:
+                            yr = np.array(np.real(y), dtype=float, copy=True)
+                            yi = np.array(np.imag(y), dtype=float, copy=True) if np.iscomplexobj(y) else None
+                            for x, ov in zip(qa.ravel(), oa.ravel()):
+                                check_value(P, case, tag + f" after [{' '.join(done)}]", n, fgrid, yr, yi, float(x), ov, mode, "query-" + form, kind)
+                    if not check_untouched(P, cur, case, tag, ref_sorted, alias_group(n), done, "query"):
+                        return cur
+                elif op == "rms":
+                    band = None
+                    if grid_ok and rng.random() < 0.6:
+                        a, b = sorted(float(v) for v in rng.uniform(0.5 * float(fgrid[0]), 1.5 * float(fgrid[-1]) + 1e-3, size=2))
+                        band = (a, b) if rng.random() < 0.8 else (b, a)
+                    done.append("rms" if band is None else "rms:band")
+                    try:
+                        cur.get_rms(band)
+                    except Exception:  # noqa  (cross results, one-bin tables, empty bands: whether get_rms answers is not this property)
+                        P.hit("seq.rms.raised")
+                    if not check_untouched(P, cur, case, tag, ref_sorted, ["f", "asd", "psd", "Gxx", "G", "ENBW", "ps"], done, "rms"):
+                        return cur
+                elif op == "read":
+                    n = arg or str(rng.choice(allnames))
                     done.append(f"read:{n}")
                     try:
                         v = getattr(cur, n)
@@ -683,7 +874,7 @@ def check_sequence(P: C.Part, res, twin, case: Dict[str, Any], tag: str, rng: np
                     done.append(op)
                     cur = copy.deepcopy(cur)
                 elif op == "pickle":
-                    proto = int(rng.integers(2, pickle.HIGHEST_PROTOCOL + 1))
+                    proto = int(arg) if arg else int(rng.integers(2, pickle.HIGHEST_PROTOCOL + 1))
                     done.append(f"pickle:{proto}")
                     cur = pickle.loads(pickle.dumps(cur, protocol=proto))
                 elif op == "df":
@@ -691,7 +882,7 @@ def check_sequence(P: C.Part, res, twin, case: Dict[str, Any], tag: str, rng: np
                     check_dataframe(P, cur, case, tag + f" after [{' '.join(done)}]", names, ref_sorted)
                 elif op == "meas":
                     done.append(op)
-                    check_measurement(P, cur, case, tag + f" after [{' '.join(done)}]", rng, ref_sorted, light=True)
+                    check_measurement(P, cur, case, tag + f" after [{' '.join(done)}]", rng, ref_sorted, light=True, names=allnames)
                 elif op == "len":
                     done.append(op)
                     if len(cur) != len(ref_sorted["f"]):
@@ -764,8 +955,9 @@ def run_case(P: C.Part, recipe: Dict[str, Any], case_seed: int, names: List[str]
         P.hit("twin-not-bit-identical")
         twin = res
     mode_sig = {"check": "crash", "mode": mode}
+    box: Dict[str, Any] = {}
     try:
-        final = check_sequence(P, res, twin, case, tag, rng, allnames)
+        final = check_sequence(P, res, twin, case, tag, rng, allnames, box)
     except Exception as ex:  # noqa  (an attribute read / export that raises on a real result is a failure of the property, not of the check)
         add_violation(P, f"{tag}: the operation sequence raised {type(ex).__name__}: {str(ex)[:160]}", dict(mode_sig, stage="sequence", exc=type(ex).__name__), case)
         final = twin
@@ -774,7 +966,8 @@ def run_case(P: C.Part, recipe: Dict[str, Any], case_seed: int, names: List[str]
             return
         for stage, fn in (("none-table", lambda: check_none_table(P, obj, case, t, allnames)),
                           ("identities", lambda: check_identities(P, obj, case, t)),
-                          ("measurement", lambda: check_measurement(P, obj, case, t, rng, light=obj is not twin) if (obj is twin or rng.random() < 0.5) else None),
+                          ("measurement", lambda: check_measurement(P, obj, case, t, rng, light=obj is not twin, names=allnames + ["XX", "YY", "XY", "navg", "f"])
+                           if (obj is twin or rng.random() < 0.5) else None),
                           ("to_dataframe", lambda: check_dataframe(P, obj, case, t, allnames))):
             try:
                 fn()
@@ -782,6 +975,13 @@ def run_case(P: C.Part, recipe: Dict[str, Any], case_seed: int, names: List[str]
                 add_violation(P, f"{t}: {stage} check: the result raised {type(ex).__name__}: {str(ex)[:160]}", dict(mode_sig, stage=stage, exc=type(ex).__name__), case)
         if obj is final and final is twin:
             break
+    # HISTORY on the twin: it has now answered the full set of get_measurement queries (all shapes, rejected non-finite queries included),
+    # to_dataframe and every attribute read; it must still report what it reported before any query (snapshot taken by check_sequence)
+    if box.get("ref") is not None and twin is not res and len(P.violations) < MAX_VIOL:
+        try:
+            check_untouched(P, twin, case, tag, box["ref"], list(box["ref"].keys()), ["full get_measurement / to_dataframe / identity checks"], "twin-after-queries")
+        except Exception as ex:  # noqa
+            add_violation(P, f"{tag}: re-reading the attributes after the queries raised {type(ex).__name__}: {str(ex)[:160]}", dict(mode_sig, stage="history", exc=type(ex).__name__), case)
 
 
 def corpus() -> List[Tuple[Dict[str, Any], int, List[str]]]:
@@ -804,6 +1004,17 @@ def corpus() -> List[Tuple[Dict[str, Any], int, List[str]]]:
                 5, ["df", "copy", "df", "pickle", "df"]))
     out.append(({"fn": "compute_spectrum", "kind": "corpus-D5", "iscsd": True, "fs": 1.0, "data": xy[:, :90], "kw": {"Lmin": 90, "Jdes": 10, "Kdes": 2}},
                 6, ["df", "deepcopy", "df", "read", "pickle", "df"]))
+    # seeded defect C20c (get_measurement rewrote the cached table in place, -inf/inf/NaN -> 0): dead second channel, full plan and single bin;
+    # a query on every quantity whose documented value is non-finite, then reads / copies / exports
+    z = np.zeros(256)
+    out.append(({"fn": "compute_spectrum", "kind": "corpus-C20c", "iscsd": True, "fs": 2.0, "data": np.stack([x, z]), "kw": {"Jdes": 20, "Kdes": 5, "order": 0, "win": "hann"}},
+                7, ["query:cf_db", "read:cf_db", "query:coh_error", "copy", "query:Hxy_dev", "query:tf", "pickle", "query:Gxy_error", "df", "rms"]))
+    out.append(({"fn": "compute_single_bin", "kind": "corpus-C20c", "iscsd": True, "fs": 2.0, "data": np.stack([x, z]).T.copy(), "freq": 0.25, "sb": {"L": 64}, "kw": {}},
+                8, ["query:cf_db", "query:Gxy_dev", "deepcopy", "read:cf_db", "query:Hxy_mag_error", "df"]))
+    out.append(({"fn": "compute_spectrum", "kind": "corpus-C20c", "iscsd": True, "fs": 1.0, "data": np.stack([z, x]), "kw": {"Jdes": 12, "Kdes": 2}},
+                9, ["meas", "query:cf_db", "query:Hxy_rad_error", "query:XX", "pickle", "meas"]))
+    out.append(({"fn": "compute_spectrum", "kind": "corpus-C20c", "iscsd": False, "fs": 1.0, "data": z, "kw": {"Jdes": 12, "Kdes": 2}},
+                10, ["rms", "query:asd", "query:psd", "rms", "df", "query:Gxx_dev"]))
     return out
 
 
